@@ -96,10 +96,12 @@ pub fn first_var(a: &Assignment) -> (r: Option<&Var>) ensures (r is Some) == (as
 STMT_TRAITS = r"""
 impl UpdateTrailingTrivia for Stmt {
     open spec fn same_sem_t(&self, r: &Self) -> bool { stmt_sem(*r) == stmt_sem(*self) && ends_with_expression(*r) == ends_with_expression(*self) }
+    open spec fn trail_ok(&self, t: FormatTriviaType, r: &Self) -> bool { true }
     #[verifier::external_body] fn update_trailing_trivia(&self, trailing_trivia: FormatTriviaType) -> (r: Self) { unimplemented!() }
 }
 impl UpdateTrailingTrivia for LastStmt {
     open spec fn same_sem_t(&self, r: &Self) -> bool { last_sem(*r) == last_sem(*self) }
+    open spec fn trail_ok(&self, t: FormatTriviaType, r: &Self) -> bool { true }
     #[verifier::external_body] fn update_trailing_trivia(&self, trailing_trivia: FormatTriviaType) -> (r: Self) { unimplemented!() }
 }
 impl GetTrailingTrivia for LastStmt {
